@@ -21,6 +21,7 @@ from nverif.oracle.jets import JetDomainError
 EPS = 2.0 ** -52
 FLOOR = 1e-3              # perturbations are relative to max(|x|, FLOOR)
 TOL_VALUE = 60.0          # |lib - oracle|_max <= TOL_VALUE * eps * E          (calibrated, see evidence)
+UNDERFLOW = 1e-290        # absolute floor of every tolerance (results at the underflow threshold)
 C_TRUNC = 1.0             # truncation constant of the derivative clause (rigorous: 2/3 and 1/3)
 K_DERIV = 24              # jet length used for S_3, S_4 (Cauchy tail added by exprs.Analysis)
 NONTRIV_REL = 1e-6
@@ -284,8 +285,9 @@ class C12(Prop):
             'np.complex128 / Bicomplex partners), tree (random programs over all of these, numpy back end), '
             'deriv (z = x + ih + jh and x + ih, h = 10^U(-4,-1) max(1,|x|)). Argument z1 = x + i a, z2 = b + i c '
             'with |a|,|b|,|c| = 10^U(-8,-1) max(|x|, 1e-3), random signs, scaled so that |a|+|b|+|c| <= '
-            'rho_cert/4 (Ball certificate of the program at x); scalars and arrays of 1-3 points (array == '
-            'elementwise scalar, bitwise). Non-trivial = all three of |a|,|b|,|c| >= 1e-6 max(|x|, 1e-3) '
+            'rho_cert/4 (Ball certificate of the program at x); 0-d scalars and arrays of 1-3 points (array '
+            'result == the results of its elements passed as length-1 arrays, bitwise). Plus a fixed grid of '
+            '432 expm1 / log1p cases. Non-trivial = all three of |a|,|b|,|c| >= 1e-6 max(|x|, 1e-3) '
             '(for deriv: tolerance <= 10 % of |f\'| resp. |f\'\'|); distinct by (function, argument).')
     assumptions = (
         'mpmath at 60 digits evaluates the principal branch of every named function on complex arguments; '
@@ -296,16 +298,42 @@ class C12(Prop):
         '(|F| + |u f\'(u)| per named function, +1 for the six inverse functions formed as log of an O(1) '
         'quantity, exp(p log u) model for powers and division); TOL_VALUE >= 10x the worst ratio measured '
         'over 8 seeds',
+        'array results are compared bitwise with length-1 array results, not with 0-d results: numpy rounds '
+        'the product of two np.complex128 scalars differently from the same product inside an array (pure '
+        'numpy effect, 8730 of 20000 random products differ in the last bit)',
+        'every tolerance has the absolute floor 1e-290 (results at the underflow threshold are not judged)',
         'derivative clause: |imag1/h - f\'| <= C h^2 S_3 + TOL eps E/h, |imag12/h^2 - f\'\'| <= C h^2 S_4 + '
         'TOL eps E/h^2; C = 1 is rigorous (2/3 resp. 1/3 from the Taylor remainder) with S_n of DESIGN 3.1 '
         'on radii [2h, rho_cert/2]',
     )
-    constants = {'TOL_VALUE': TOL_VALUE, 'C_TRUNC': C_TRUNC, 'FLOOR': FLOOR, 'K_DERIV': K_DERIV,
+    constants = {'TOL_VALUE': TOL_VALUE, 'UNDERFLOW': UNDERFLOW, 'C_TRUNC': C_TRUNC, 'FLOOR': FLOOR, 'K_DERIV': K_DERIV,
                  'NONTRIV_REL': NONTRIV_REL, 'mp_dps': idem.DPS}
-    examples = {'quick': 1500, 'thorough': 60000}
+    examples = {'quick': 1500, 'thorough': 40000}
 
     def strategy(self, tier):
         return any_case()
+
+    def enumerate(self, tier):
+        """Dedicated deterministic sample of expm1 / log1p (the two functions repaired in /repo):
+        both branches of expm1 (|z2| < 1, >= 1), log1p on both sides of 0 and down to -0.95."""
+        grid = {'expm1': [-30.0, -3.0, -0.5, -1e-3, 0.0, 1e-3, 0.5, 3.0, 30.0],
+                'log1p': [-0.95, -0.9, -0.7, -0.5, -1e-3, 1e-3, 0.5, 3.0, 30.0]}
+        gid = 0
+        for name in ('expm1', 'log1p'):
+            tree = ['u', name, ['x']]
+            for x in grid[name]:
+                lim = rho_of(tree, x) / 4.0
+                for rel in (1e-7, 1e-4, 1e-2, 1e-1):
+                    for sg in ((1, 1, 1), (1, -1, 1), (-1, 1, -1)):
+                        s = max(abs(x), FLOOR) * rel
+                        p = [sg[0] * s, sg[1] * 0.7 * s, sg[2] * 0.4 * s]
+                        tot = sum(abs(v) for v in p)
+                        if tot > lim:
+                            p = [v * 0.999 * lim / tot for v in p]
+                        for via in ('method', 'numpy'):
+                            yield dict(kind='unary', name=name, via=via, tree=tree, pts=[[x] + p],
+                                       scalar=(gid % 2 == 0), z2zero=False, gid=gid)
+                            gid += 1
 
     # ---- library side ------------------------------------------------------------
     def _libf(self, case, Bicomplex):
@@ -352,6 +380,12 @@ class C12(Prop):
             if op == '*':
                 return E.mul(Z, W), E
             if op == '/':
+                if order == 'zw' and ptype != 'bicomplex':
+                    # z * other**-1 with a plain number: no logarithm involved
+                    inv = idem.const(1.0)
+                    inv.a = inv.b = 1 / W.a
+                    inv.e = inv.M
+                    return E.mul(Z, inv), E
                 return (E.div(Z, W) if order == 'zw' else E.div(W, Z)), E
             if order == 'zw':
                 return E.power(Z, num), E
@@ -427,7 +461,7 @@ class C12(Prop):
             attrs['regimes'] = sorted(regimes | {'rpow:python-scalar**array'})
         if SKIP_KNOWN and (set(attrs['regimes']) & {'tanh:over300', 'arcsinh:neg', 'log1p:re<-0.5',
                                                     'rpow:python-scalar**array'}
-                           or any(r.endswith(':mixed') for r in attrs['regimes'])):
+                           or any(r.endswith((':mixed', ':huge', ':tiny')) for r in attrs['regimes'])):
             ctx.skip('development: known defect regime skipped')
         # --- library
         libf = self._libf(case, Bicomplex)
@@ -480,11 +514,8 @@ class C12(Prop):
                     what, z1[k], z2[k], lib[k].tolist(), [float(v) for v in orc]),
                     z1=z1[k], z2=z2[k], lib=lib[k].tolist(), oracle=[float(v) for v in orc], **attrs)
             err = max(abs(mp.mpf(float(lib[k][i])) - orc[i]) for i in range(4))
-            unit = EPS * ev.e
-            if unit == 0:
-                ratio = 0.0 if err == 0 else math.inf
-            else:
-                ratio = float(err / unit)
+            unit = EPS * ev.e + UNDERFLOW / TOL_VALUE
+            ratio = float(err / unit)
             worst = max(worst, ratio)
             tag = fname + ('/neg' if flags_neg else '')
             ctx.track('value err/(eps E) %s' % tag, ratio,
@@ -505,11 +536,11 @@ class C12(Prop):
         if nt:
             ctx.nontriv(dict(name=name, tree=case.get('tree'), pts=pts, w=case.get('w')))
             ctx.count('nontrivial fn=%s' % fname)
-        ctx.sample(dict(what=what, z1=z1[0], z2=z2[0], library=lib[0].tolist(),
-                        oracle=[float(v) for v in evs[0].recombined()], E=evs[0].e, ratio=worst),
-                   force=(fname in ('expm1', 'log1p') and nt and ctx.classes.get('sample ' + fname, 0) < 1))
-        if fname in ('expm1', 'log1p') and nt:
-            ctx.count('sample ' + fname)
+        if 'gid' in case:
+            ctx.count('dedicated expm1/log1p grid')
+        if 'gid' not in case or case['gid'] % 97 == 0:
+            ctx.sample(dict(what=what, z1=z1[0], z2=z2[0], library=lib[0].tolist(),
+                            oracle=[float(v) for v in evs[0].recombined()], E=evs[0].e, ratio_to_eps_E=worst))
 
     def _deriv_clause(self, case, ctx, an, lib, ev, attrs, what):
         x, h, form = case['x'], case['h'], case['form']
@@ -531,7 +562,7 @@ class C12(Prop):
                 continue
             # Taylor remainder <= rig * h^2 * S_n with rig = 2/3 (imag1, jh), 1/3 (imag12), 1/6 (z2 = 0)
             trunc = C_TRUNC * h * h * S
-            rnd = EPS * ev.e / div
+            rnd = (EPS * ev.e + UNDERFLOW / TOL_VALUE) / div
             tol = trunc + TOL_VALUE * rnd
             err = float(abs(mp.mpf(float(val)) - exact))
             ctx.track('%s err/tol' % clause, err / tol if tol > 0 else (0.0 if err == 0 else math.inf),
